@@ -8,7 +8,7 @@ func init() {
 	add(Spec{
 		PropSpec: vlib.PropSpec{
 			ID: "C17", Level: "exploration",
-			Rule: "laws phase: per round a pool of 200 endpoints over 13 endpoint types (registered + unregistered, negative, >32bit) with byte strings of length 0..16 generated to share prefixes, differ only in length / trailing zeros / one bit / type; all 40 000 ordered pairs and all ordered triples are evaluated against the (type,bytes) model. layers phase: Ethernet/IPv4|IPv6/TCP|UDP|SCTP|UDPLite|RUDP packets built byte-by-byte by the harness (addresses known), decoded eagerly and lazily, forward and with addresses swapped, plus FDDI/LinuxSLL/PPP and parser-reused layers. distinct_nontrivial = distinct (type,bytes) endpoints + distinct packets (by content hash); every generated case is non-trivial by construction (no empty pools).",
+			Rule:        "laws phase: per round a pool of 200 endpoints over 13 endpoint types (registered + unregistered, negative, >32bit) with byte strings of length 0..16 generated to share prefixes, differ only in length / trailing zeros / one bit / type; all 40 000 ordered pairs and all ordered triples are evaluated against the (type,bytes) model. layers phase: Ethernet/IPv4|IPv6/TCP|UDP|SCTP|UDPLite|RUDP packets built byte-by-byte by the harness (addresses known), decoded eagerly and lazily, forward and with addresses swapped, plus FDDI/LinuxSLL/PPP and parser-reused layers. distinct_nontrivial = distinct (type,bytes) endpoints + distinct packets (by content hash); every generated case is non-trivial by construction (no empty pools).",
 			Assumptions: []string{"endpoint pools and packets are PRNG generated; 'all pairs/triples' is exhaustive only within each pool"},
 			Phases: []vlib.Phase{
 				{Name: "laws", Bin: "vchild", Quick: 4, Thorough: 16},
@@ -24,7 +24,7 @@ func init() {
 	add(Spec{
 		PropSpec: vlib.PropSpec{
 			ID: "C18", Level: "exploration",
-			Rule: "exhaustive phase: every sequence over the alphabet {P0,P1,P3,P8,P100,A0,A1,A3,A8,A100,Clear,Push} of length <= 5 (quick) / <= 7 (thorough) x 6 initial hints (NewSerializeBuffer, ExpectedSize (0,0),(1,0),(0,1),(8,8),(100,3)); for sequences up to length 5 every still-valid earlier returned slice is rewritten after every op. random phase: 50..500 ops, sizes up to 70 000, incl. rewrites through earlier slices. stack phase: SerializeLayers over 0..6 stub layers (prepend + optional trailer append, injected errors) on fresh/pre-sized/dirty buffers. After every op Bytes()/Layers() are compared with a reference deque in virtual coordinates and the returned slice is checked by address to be the window at its position. Non-trivial = sequence with a non-empty prepend AND a non-empty append (exhaustive), every random sequence, stacks of >= 2 layers; distinct by (hint, op list) hash.",
+			Rule:        "exhaustive phase: every sequence over the alphabet {P0,P1,P3,P8,P100,A0,A1,A3,A8,A100,Clear,Push} of length <= 5 (quick) / <= 7 (thorough) x 6 initial hints (NewSerializeBuffer, ExpectedSize (0,0),(1,0),(0,1),(8,8),(100,3)); for sequences up to length 5 every still-valid earlier returned slice is rewritten after every op. random phase: 50..500 ops, sizes up to 70 000, incl. rewrites through earlier slices. stack phase: SerializeLayers over 0..6 stub layers (prepend + optional trailer append, injected errors) on fresh/pre-sized/dirty buffers. After every op Bytes()/Layers() are compared with a reference deque in virtual coordinates and the returned slice is checked by address to be the window at its position. Non-trivial = sequence with a non-empty prepend AND a non-empty append (exhaustive), every random sequence, stacks of >= 2 layers; distinct by (hint, op list) hash.",
 			Assumptions: []string{"bounded-depth enumeration is complete only for the stated alphabet, depth and hints"},
 			Phases: []vlib.Phase{
 				{Name: "exhaustive", Bin: "vchild", Quick: 16, Thorough: 16},
@@ -42,7 +42,7 @@ func init() {
 	add(Spec{
 		PropSpec: vlib.PropSpec{
 			ID: "C08", Level: "exploration",
-			Rule: "fold phase: FoldChecksum vs a 64-bit end-around reference for ALL 2^32 accumulator values (thorough, 16 shards) or a stratified 2^22+917 504-value subset (quick: high or low half in {0,1,2,0x7fff,0x8000,0xfffe,0xffff} x all 65 536, plus PRNG values). sum phase: FoldChecksum(ComputeChecksum(d,init)) vs RFC 1071 reference for all lengths 0..64 x 5 byte patterns x 6 initial sums, PRNG strings <= 4 KiB, 65 535..65 537, and 128 KiB..300 KB strings of 0xff/large words (32-bit carry-out region). proto phase: for IPv4 header (IHL 5..15), TCP/v4, TCP/v6, UDP/v4, UDP/v6, ICMPv4, ICMPv6, GRE(+key/seq) packets built with SerializeLayers(FixLengths,ComputeChecksums): stored checksum == independent reference over the covered bytes + independently built pseudo-header; a 16-bit compensation word (payload word / IPv4 Id) steers each family through the checksum outcomes (all 65 536 in thorough, stride 16 + solved special outcomes 0x0000/0xffff/0x0001/0xfffe/0x8000/0x7fff/0x00ff/0xff00 in quick), odd and even payload lengths; every built packet is decoded and verified (layer VerifyChecksum + Packet.VerifyChecksums); every single-bit flip of every covered bit (incl. stored checksum and pseudo-header addresses) that leaves the covered byte range unchanged must be reported invalid with Correct == reference. Non-trivial = every packet (>= 1 covered word) and every >= 2-byte string; distinct by content hash.",
+			Rule:        "fold phase: FoldChecksum vs a 64-bit end-around reference for ALL 2^32 accumulator values (thorough, 16 shards) or a stratified 2^22+917 504-value subset (quick: high or low half in {0,1,2,0x7fff,0x8000,0xfffe,0xffff} x all 65 536, plus PRNG values). sum phase: FoldChecksum(ComputeChecksum(d,init)) vs RFC 1071 reference for all lengths 0..64 x 5 byte patterns x 6 initial sums, PRNG strings <= 4 KiB, 65 535..65 537, and 128 KiB..300 KB strings of 0xff/large words (32-bit carry-out region). proto phase: for IPv4 header (IHL 5..15), TCP/v4, TCP/v6, UDP/v4, UDP/v6, ICMPv4, ICMPv6, GRE(+key/seq) packets built with SerializeLayers(FixLengths,ComputeChecksums): stored checksum == independent reference over the covered bytes + independently built pseudo-header; a 16-bit compensation word (payload word / IPv4 Id) steers each family through the checksum outcomes (all 65 536 in thorough, stride 16 + solved special outcomes 0x0000/0xffff/0x0001/0xfffe/0x8000/0x7fff/0x00ff/0xff00 in quick), odd and even payload lengths; every built packet is decoded and verified (layer VerifyChecksum + Packet.VerifyChecksums); every single-bit flip of every covered bit (incl. stored checksum and pseudo-header addresses) that leaves the covered byte range unchanged must be reported invalid with Correct == reference. Non-trivial = every packet (>= 1 covered word) and every >= 2-byte string; distinct by content hash.",
 			Assumptions: []string{"the harness's RFC 1071 reference (64-bit accumulation, end-around fold) and pseudo-header builders are correct", "bit flips that change which bytes a layer covers (length/IHL/data-offset fields) are skipped, because an accidental 2^-16 match is then legitimate"},
 			Phases: []vlib.Phase{
 				{Name: "fold", Bin: "vchild", Quick: 16, Thorough: 16},
@@ -60,7 +60,7 @@ func init() {
 	add(Spec{
 		PropSpec: vlib.PropSpec{
 			ID: "C13", Level: "exploration",
-			Rule: "benign phase: 1..4 datagrams (payload 8..3000, a tier at the 65 515 maximum; header 20..60 bytes with options on first / other fragments; keys that differ only in id or only in src) cut at PRNG 8-byte boundaries into 2..8 (up to 60) fragments built byte-by-byte, fed in order / reversed / permuted with exact duplicates, unfragmented and DF packets mixed in and an optional DiscardOlderThan at a PRNG step; plus ALL permutations of 2..5 (thorough 6) fragments with and without options. Model: per key the set of fragments seen since the last completion/discard; result must be nil until the set is complete, then one datagram with payload == original, MF/offset cleared, Length == 4*IHL+len(Payload), same id/src/dst/proto; pass-through must return the same pointer unchanged. hostile phase: overlapping/conflicting/oversize/undersize/too-many fragments; any returned datagram must consist of bytes some fragment placed at that offset and end where a last fragment ended. v6 phase: valid IPv6 partitions (<= 20 fragments, permuted, duplicates, 1..3 ids interleaved) must return nil until complete and then the original payload and next header. Non-trivial = history with >= 3 arrivals and at least one fragment arriving before a lower-offset one; distinct by history hash.",
+			Rule:        "benign phase: 1..4 datagrams (payload 8..3000, a tier at the 65 515 maximum; header 20..60 bytes with options on first / other fragments; keys that differ only in id or only in src) cut at PRNG 8-byte boundaries into 2..8 (up to 60) fragments built byte-by-byte, fed in order / reversed / permuted with exact duplicates, unfragmented and DF packets mixed in and an optional DiscardOlderThan at a PRNG step; plus ALL permutations of 2..5 (thorough 6) fragments with and without options. Model: per key the set of fragments seen since the last completion/discard; result must be nil until the set is complete, then one datagram with payload == original, MF/offset cleared, Length == 4*IHL+len(Payload), same id/src/dst/proto; pass-through must return the same pointer unchanged. hostile phase: overlapping/conflicting/oversize/undersize/too-many fragments; any returned datagram must consist of bytes some fragment placed at that offset and end where a last fragment ended. v6 phase: valid IPv6 partitions (<= 20 fragments, permuted, duplicates, 1..3 ids interleaved) must return nil until complete and then the original payload and next header. Non-trivial = history with >= 3 arrivals and at least one fragment arriving before a lower-offset one; distinct by history hash.",
 			Assumptions: []string{"fragments are produced by the harness's wire builder and decoded with layers.IPv4.DecodeFromBytes before being fed", "for hostile sets only the 'no invented byte / consistent header' rule is checked; nil or an error is always accepted"},
 			Phases: []vlib.Phase{
 				{Name: "benign", Bin: "vchild", Quick: 16, Thorough: 16},
@@ -108,7 +108,7 @@ func init() {
 	add(Spec{
 		PropSpec: vlib.PropSpec{
 			ID: "C11", Level: "exploration",
-			Rule: "Both assembler packages: histories of 5..40 (thorough ..120) connections, both directions, interleaved PRNG; segment sizes 1 byte..5 pages (one third of the histories mix 1-page and multi-page packets and hold back the first data segment of half of the directions so that everything queues); closes by FIN/RST, re-open of the same 4-tuple after close (late retransmissions, duplicated SYN), directions without SYN, monotone or jittered timestamps, limits {none, per-connection 1,2,5, total 3,10}, FlushOlderThan/FlushCloseOlderThan at PRNG points and cut-offs, FlushAll in the middle and at the end; reassembly additionally with KeepFrom (10/40 %) and streams that refuse removal. After EVERY API call an audit reads pages-in-use and the pool snapshot through the verif accessors (under the package's own locks) and checks: I1 each stream New -> data* -> complete exactly once, nothing after completion; I2 pages in use == queued pages of open directions + kept pages, after FlushAll no removable connection and no page remains; I3 with a limit L the out-of-order pages (per connection / in total) are <= L + pages(current packet); I4 after an age flush no open connection waits in front of a page older than the cut-off and every gap skipped in that call led to data older than the cut-off. Non-trivial = history with >= 1 age flush that released data AND >= 1 limit-forced release; distinct by history hash.",
+			Rule:        "Both assembler packages: histories of 5..40 (thorough ..120) connections, both directions, interleaved PRNG; segment sizes 1 byte..5 pages (one third of the histories mix 1-page and multi-page packets and hold back the first data segment of half of the directions so that everything queues); closes by FIN/RST, re-open of the same 4-tuple after close (late retransmissions, duplicated SYN), directions without SYN, monotone or jittered timestamps, limits {none, per-connection 1,2,5, total 3,10}, FlushOlderThan/FlushCloseOlderThan at PRNG points and cut-offs, FlushAll in the middle and at the end; reassembly additionally with KeepFrom (10/40 %) and streams that refuse removal. After EVERY API call an audit reads pages-in-use and the pool snapshot through the verif accessors (under the package's own locks) and checks: I1 each stream New -> data* -> complete exactly once, nothing after completion; I2 pages in use == queued pages of open directions + kept pages, after FlushAll no removable connection and no page remains; I3 with a limit L the out-of-order pages (per connection / in total) are <= L + pages(current packet); I4 after an age flush no open connection waits in front of a page older than the cut-off and every gap skipped in that call led to data older than the cut-off. Non-trivial = history with >= 1 age flush that released data AND >= 1 limit-forced release; distinct by history hash.",
 			Assumptions: []string{"page and pool state is read through build-tag 'verif' accessors added to both packages (read-only, under conn.mu)", "'waiting on data older than the cut-off' is read as: the first (lowest-sequence) queued page is older than the cut-off"},
 			Phases: []vlib.Phase{
 				{Name: "tcpassembly", Bin: "vtcpasm", Quick: 16, Thorough: 16},
@@ -124,7 +124,7 @@ func init() {
 	add(Spec{
 		PropSpec: vlib.PropSpec{
 			ID: "C12", Level: "exploration",
-			Rule: "stress phases (race build, GOMAXPROCS=8): 2..8 assembler goroutines + (3 of 4 rounds) a concurrent flusher (FlushOlderThan / FlushAll) on one StreamPool over 2..6 connections that are opened (SYN), fed in order and closed (FIN) for 20..120 (thorough ..300) generations each; every direction is fed by exactly one assembler; lock-free yield points (verif hooks) inject Gosched/1-100us sleeps; payloads are self-describing 8-byte records (conn, dir, generation, index) so each stream checks on its own, without shared monitor state, that it only gets its own connection's bytes, in order, gap-free unless a skip is announced, never concurrently (atomic in-callback flag), completed exactly once; offline after join: no record delivered twice, lifetimes of the kept streams of one key do not overlap (single live entry), pool empty after the final FlushAll; Go race detector reports are parsed and keyed by the innermost gopacket function pair. Non-trivial = every stress round (>= 2 goroutines on a shared pool); distinct by (round, batch).",
+			Rule:        "stress phases (race build, GOMAXPROCS=8): 2..8 assembler goroutines + (3 of 4 rounds) a concurrent flusher (FlushOlderThan / FlushAll) on one StreamPool over 2..6 connections that are opened (SYN), fed in order and closed (FIN) for 20..120 (thorough ..300) generations each; every direction is fed by exactly one assembler; lock-free yield points (verif hooks) inject Gosched/1-100us sleeps; payloads are self-describing 8-byte records (conn, dir, generation, index) so each stream checks on its own, without shared monitor state, that it only gets its own connection's bytes, in order, gap-free unless a skip is announced, never concurrently (atomic in-callback flag), completed exactly once; offline after join: no record delivered twice, lifetimes of the kept streams of one key do not overlap (single live entry), pool empty after the final FlushAll; Go race detector reports are parsed and keyed by the innermost gopacket function pair. Non-trivial = every stress round (>= 2 goroutines on a shared pool); distinct by (round, batch).",
 			Assumptions: []string{"the race detector only reports races between accesses that both executed in the run", "stream monitors use only per-stream state (plus an atomic in-callback flag), so they add no happens-before edges between different connections"},
 			Phases: []vlib.Phase{
 				{Name: "stress-tcpassembly", Bin: "vtcpasm", Race: true, Quick: 2, Thorough: 4, Procs: 8, Parallel: 2},
